@@ -138,11 +138,14 @@
 
 (define (bits . o) (list->bits o))
 
+;; folds over bits 0 .. (integer-length i)-1, so that it also ends for
+;; negative i (whose shifts never reach zero)
 (define (bitwise-fold kons knil i)
-  (let lp ((i i) (acc knil))
-    (if (zero? i)
-        acc
-        (lp (arithmetic-shift i -1) (kons (odd? i) acc)))))
+  (let ((len (integer-length i)))
+    (let lp ((i i) (n 0) (acc knil))
+      (if (>= n len)
+          acc
+          (lp (arithmetic-shift i -1) (+ n 1) (kons (odd? i) acc))))))
 
 (define (bitwise-for-each proc i)
   (bitwise-fold (lambda (b acc) (proc b)) #f i))
